@@ -40,7 +40,8 @@ SPECFUNCS = {
                    'c.actions == old(s._fwd_queue[0].actions) and eqv(c.status_reason, old(s._fwd_queue[0].status_reason)) and '
                    'ghost.finished == old(ghost.finished) and ghost.tx_out == old(ghost.tx_out) and '
                    'ghost.wire_crc_ok == old(ghost.wire_crc_ok) and ghost.consumed == old(ghost.consumed) and '
-                   'ghost.sched_send == old(ghost.sched_send)'),
+                   'ghost.sched_send == old(ghost.sched_send) and admin_coherent(c.bundle) and crc_type_ok(pri(c)) and '
+                   'forall(x, "Pkt[CanonicalBlock]", implies(existed(x) or contains(blocks(c), x), crc_type_ok(x)))'),
 }
 
 
@@ -214,9 +215,15 @@ FUNCS = {
                                      '(subject of the C08 contracts); its _update_from_admin step (payload-admin flag, type '
                                      'code and data of a block carrying an AdminRecord) is assumed not to change a bundle '
                                      'that was decoded from the wire, where flag and record already agree',
-        modifies=['pkt:CanonicalBlock.btsd', 'pkt:CanonicalBlock.crc_value', 'pkt:PrimaryBlock.crc_value', 'ghost.crc_ok'],
+        modifies=['pkt:CanonicalBlock.btsd', 'pkt:CanonicalBlock.crc_value', 'pkt:PrimaryBlock.crc_value',
+                  'pkt:PrimaryBlock.bundle_flags', 'pkt:CanonicalBlock.type_code', 'ghost.crc_ok'],
         ghost_exit=['ghost.crc_ok = set_remove(ghost.crc_ok, self)'],
-        ensures=[('hop_wire_kept', 'wire_kept()')],
+        ensures=[('hop_wire_kept', 'wire_kept()'),
+                 ('coherent_bundle_keeps_its_flags', 'implies(old(admin_coherent(self)), flags_kept(self))'),
+                 ('flags_stay_nonnegative', 'flags_nonneg_kept()'),
+                 ('only_this_bundle', 'forall(p, "Pkt[PrimaryBlock]", implies(not eqv(self.primary, p), '
+                                      'p.bundle_flags == old(p.bundle_flags)))'),
+                 ('crc_types_kept', 'forall(b, "Pkt[CanonicalBlock]", b.crc_type == old(b.crc_type))')],
     ),
     'bp.cla:AbstractAdaptor.send_bundle_func': dict(
         self='Ref[ClAdaptor]', params={'tx_params': 'Any[rawconfig]'}, returns='Func', props=['C11'],
@@ -227,15 +234,21 @@ FUNCS = {
     # ---------------------------------------------------------------------------------------------
     'bp.agent:Agent.send_bundle': dict(
         self=AG, params={'ctr': CTR}, props=['C11', 'C08', 'C19'],
-        requires=[('wire', WIRE_PRIMARY, [])],
+        requires=[('wire', WIRE_PRIMARY, []),
+                  ('crc_types_known', 'crc_types_known(ctr.bundle)', []),
+                  # a bundle that was decoded from the wire: its payload-admin flag agrees with its payload object
+                  ('received_as_decoded', 'implies(received(ctr), admin_coherent(ctr.bundle))', [])],
         raises={'RuntimeError': dict(ensures=[('nothing_handed_over', 'ghost.tx_out == old(ghost.tx_out)', ['C19']),
+                                              ('primary_still_there', WIRE_PRIMARY, []),
                                               ('crc_flag', 'implies(old(ghost.wire_crc_ok), ghost.wire_crc_ok)', []),
                                               ('not_taken_over', 'ghost.consumed == old(ghost.consumed)', ['C19'])]),
                 'Exception': dict(ensures=[('nothing_recorded', 'ghost.tx_out == old(ghost.tx_out)', []),
+                                           ('primary_still_there', WIRE_PRIMARY, []),
                                            ('crc_flag', 'implies(old(ghost.wire_crc_ok), ghost.wire_crc_ok)', []),
                                            ('not_taken_over', 'ghost.consumed == old(ghost.consumed)', ['C19'])])},
         modifies=['Ctr.route', 'Ctr.sender', 'Ctr._block_num', 'Ctr._last_block_num',
                   'pkt:CanonicalBlock.btsd', 'pkt:CanonicalBlock.crc_value', 'pkt:CanonicalBlock.block_num',
+                  'pkt:PrimaryBlock.bundle_flags', 'pkt:CanonicalBlock.type_code',
                   'pkt:PrimaryBlock.crc_value', 'pkt:PrimaryBlock.source', 'pkt:PrimaryBlock.report_to',
                   'pkt:PrimaryBlock.create_ts', 'pkt:PrimaryBlock.lifetime', 'pkt:Timestamp.dtntime', 'pkt:Timestamp.seqno',
                   'Timestamper._time', 'Timestamper._seqno', 'ghost.crc_ok', 'ghost.wire_crc_ok', 'ghost.tx_out',
@@ -247,6 +260,8 @@ FUNCS = {
             ('not_taken_over_yet', 'ghost.consumed == old(ghost.consumed) and ghost.sched_send == old(ghost.sched_send)'),
             ('no_step_failed_yet', 'ghost.step_failed == old(ghost.step_failed)'),
             ('primary_still_there', WIRE_PRIMARY),
+            ('crc_types_known', 'crc_types_known(ctr.bundle)'),
+            ('still_as_decoded', 'implies(old(received(ctr)), admin_coherent(ctr.bundle))'),
             ('received_primary_kept', 'implies(old(received(ctr)), primary_kept(ctr))'),
             ('nothing_sent_yet', 'ghost.tx_out == old(ghost.tx_out) and ghost.wire_crc_ok == old(ghost.wire_crc_ok)'),
             ('hop_wire_kept', 'wire_kept()'),
@@ -303,8 +318,12 @@ FUNCS = {
             ('hop_blocks_as_decoded', 'forall(b, "Pkt[CanonicalBlock]", implies(b._pcls == tag_of("HopCountBlock") and pl(b) != 0, '
                                       'hop_ok(b)))', []),
             ('not_yet_taken_over', 'forall(i, 0, length(self._fwd_queue), not contains(ghost.consumed, self._fwd_queue[i]))', []),
+            ('queued_as_decoded', 'forall(i, 0, length(self._fwd_queue), crc_type_ok(pri(self._fwd_queue[i])) and '
+                                  'admin_coherent(self._fwd_queue[i].bundle))', []),
+            ('crc_types_known', 'forall(x, "Pkt[CanonicalBlock]", crc_type_ok(x))', []),
         ],
         modifies=['Agent._fwd_queue', 'pkt:Bundle.blocks', 'pkt:HopCountBlock.count', 'pkt:CanonicalBlock.btsd',
+                  'pkt:PrimaryBlock.bundle_flags',
                   'pkt:CanonicalBlock._pcls', 'pkt:CanonicalBlock.payload', 'pkt:CanonicalBlock.type_code',
                   'pkt:CanonicalBlock.block_flags', 'pkt:CanonicalBlock.crc_type',
                   'pkt:PreviousNodeBlock.node', 'pkt:PreviousNodeBlock.payload', 'pkt:BundleAgeBlock.age',
